@@ -704,7 +704,10 @@ class Unit:
                     block.append((j + 1, vc[j])); j += 1
                 if j >= len(vc):
                     raise AnchorLost("%s:%d: //@arm without //@end" % (self.vc_path, i + 1))
-                self._do_arm(parts[1], parts[2], parts[3], parts[4:], block)
+                # options whose value contains blanks are written between backticks: params=`a: T, b: U` ret=`R`
+                qopts = ["%s=%s" % (mq.group(1), mq.group(2)) for mq in re.finditer(r"(\w+)=`(.*?)`", ln)]
+                plain = re.sub(r"\w+=`.*?`", "", ln)[3:].split()
+                self._do_arm(plain[1], plain[2], plain[3], plain[4:] + qopts, block)
                 i = j + 1
                 raw_label = None
                 continue
@@ -1001,7 +1004,13 @@ class Unit:
                 raise AnchorLost("%s: arm Request::%s: field `%s` not found in enum Request" % (rel, variant, field))
             params.append("%s: %s" % (bind, ftypes[field]))
         name = "arm_" + re.sub(r"(?<!^)(?=[A-Z])", "_", variant).lower()
-        if closure_arg:
+        xparams = next((o.split("=", 1)[1] for o in opts if o.startswith("params=")), None)
+        xret = next((o.split("=", 1)[1] for o in opts if o.startswith("ret=")), None)
+        if xparams is not None:
+            # an arm of another dispatcher (e.g. the match of the replication thread): the locals of the enclosing function it uses become the parameters named here
+            sig = "fn %s(%s%s%s) -> (r: %s)" % (name, ", ".join(params), ", " if params else "", xparams, xret or "Response")
+            self.dropped.append("arm Request::%s of %s (%s:%d): R10 the enclosing function's locals `%s` become parameters" % (variant, fn_name, rel, src_line, xparams))
+        elif closure_arg:
             sig = "fn %s<F: %s>(%s%sdbs: &Arc<Databases>, client: &Client, opp: &F) -> (r: Response)" % (
                 name, ftype, ", ".join(params), ", " if params else "")
         else:
